@@ -19,9 +19,12 @@ RULE = ("metamorphic on the real code (model-free verdict: image of the program 
         "base set first (.link), set after the code (unknown while compiling) or defaulted; compared with the textual unrolling (every copy re-parsed, "
         "nested repeats written out too).  The parser's own token tree of the body is converted to a Coq term and Model/TreeCache (threaded "
         "repeat_model and reference unrolled) is compared with both observed images.  A fixed small family has '.end' inside the body (known finding). "
+        "(1b) the repetition budget (side condition of repeat_unroll; the bound is read from the regenerated Gen file): '.repeat N { }' flat and nested "
+        "with totals 65535 / 65536 / 65537, empty and 1-byte bodies: equal to the written-out text within the budget, refused beyond it. "
         "(2) files: abstract programs of 1-3 linked files + include files (depth <= 3) made of '.word .+k', .byte, .blkb, .even, insert_file (0-300 "
         "bytes), .include, .end/end, .once; transformations concat-linked-files, insert->.byte (empty insert -> nothing), cut-after-.end in a main / "
-        "linked / included file, include-a-.once-file 1-3 times -> once, paste-included-file; both programs through Model/Structure in Coq. "
+        "linked / included file, include-a-.once-file 1-3 times -> once, paste-included-file, include cycles (self / mutual) behind '.once' = the same without the back edge, and without '.once' = refused with "
+        "'recursive-include'; both programs through Model/Structure in Coq. "
         "(2b) '.once' by every route, on REAL files in a scratch directory (path handling goes through os.path): a '.once' file reached 2-3 times "
         "by any mix of: given as a linked file (before / after main / listed twice), '.include'd directly, inside a '.repeat', or through a nested "
         "include resolved relative to the including file, under different spellings of its path (lib.mac, ./lib.mac, sub/../lib.mac, absolute "
@@ -48,7 +51,7 @@ LEVEL_NOTE = ("TreeCache is a value-level model (final integer addresses): with 
               "Symbol scoping is outside both models (same env on both sides = the hypothesis 'no reference to an enclosing local label / no shared "
               "private names'); that side is covered by the metamorphic sweep on rich programs.  '%expr' registers are unmodelled (explicit Crash). "
               "Known finding: '.end' inside a '.repeat' body (hypothesis no_end_in_body; refutation of the full statement in Props/C16_findings.v). "
-              "Print Assumptions: closed under the global context for all 23 theorems.")
+              "Print Assumptions: closed under the global context for all 25 theorems.")
 TECHNIQUE = "Coq proof about hand-written executable models + model/implementation correspondence in coqc + metamorphic search oracle on the real code"
 ASSUME = ["pdpy11's parser maps the generated text to the token tree that is handed to the model (the tree is taken from the parser itself)",
           "symbols used in a '.repeat' body resolve to the same definitions in the unrolled text (no enclosing local labels referenced)",
@@ -472,6 +475,28 @@ def transform_sprog(rng, want):
                 out.append(fid)
             q.ids = out
         return "once-routes:" + "+".join(rt for rt, _, _ in slots), p, q
+    if want == "cycle":
+        # include cycles: behind '.once' they assemble (the back edge contributes nothing); without it the
+        # code refuses the 33rd nesting level with 'recursive-include'
+        g, h = inc_ids[0], 40
+        for fid in list(p.files):
+            p.files[fid] = [st for st in p.files[fid] if st[0] != "inc" or fid in p.ids]
+        p.files[g] = [st for st in p.files[g] if st[0] != "inc"]
+        kind = r.choice(["self", "mutual", "self-once", "mutual-once"])
+        if kind.startswith("self"):
+            p.files[g] = p.files[g] + [("inc", g), ("even",)]
+        else:
+            p.files[h] = [("byte", [r.randrange(256), r.randrange(256)]), ("inc", g), ("even",)]
+            p.files[g] = p.files[g] + [("inc", h), ("even",)]
+        if not any(st == ("inc", g) for st in p.files[p.ids[0]]):
+            p.files[p.ids[0]] = p.files[p.ids[0]] + [("inc", g)]
+        q = p.clone()
+        if kind.endswith("once"):
+            p.files[g] = [("once",)] + p.files[g]
+            q.files[g] = [("once",)] + q.files[g]
+            back = g if kind.startswith("self") else h
+            q.files[back] = [st for st in q.files[back] if st != ("inc", g)]      # the back edge removed
+        return "cycle-" + kind, p, q
     if want == "oncefirst":
         # the first compilation of a '.once' file contributes everything: same as without the '.once'
         g = r.choice([inc_ids[0], p.ids[0], p.ids[-1]])
@@ -498,7 +523,7 @@ def transform_sprog(rng, want):
 
 
 def structure_family(rep, rng, n_cases, with_model=True):
-    wants = ["concat", "insert", "end", "once", "paste", "oncefirst", "onceroutes"]
+    wants = ["concat", "insert", "end", "once", "paste", "oncefirst", "onceroutes", "cycle"]
     items = []
     for i in range(n_cases):
         t = transform_sprog(rng, wants[i % len(wants)])
@@ -516,6 +541,9 @@ def structure_family(rep, rng, n_cases, with_model=True):
         rep.count(f"files:{kind}:{a['outcome']}")
         if fa != fb or kind.startswith("end-inc") or kind == "insert":
             rep.nontrivial(("files", kind, digest(*[t for _, t in fa], *[t for _, t in fb])))
+        if kind in ("cycle-self", "cycle-mutual") and not (a["outcome"] == "failed" and "recursive-include" in brief(a)["errors"]):
+            rep.disagree("an include cycle without '.once' is refused with 'recursive-include' (model: nesting deeper than MAX_INCLUDE_DEPTH)",
+                         {"files": [list(x) for x in fa], "fs": _fs_json(fs)}, impl=brief(a))
         if view(a) != view(b):
             rep.violate(f"files-{kind.split('-')[0]}:" + digest(*[t for _, t in fa]),
                         f"structural transformation '{kind}' changed the image",
@@ -701,6 +729,60 @@ def _fs_json(fs):
 
 def _fs_back(fs):
     return {k: (bytes.fromhex(v["hex"]) if isinstance(v, dict) else v) for k, v in (fs or {}).items()}
+
+
+# ------------------------------------------------------------------------------------------------
+# (1b) the repetition budget: the side condition of repeat_unroll
+def budget_family(rep, quick):
+    """MAX_REPETITIONS = 65536 iterations of all '.repeat' blocks together (read from the regenerated Gen file).
+    Within the budget the repeat and the written-out text agree; the first iteration beyond it is refused
+    ('value-out-of-bounds') while the written-out text, which has nothing to count, assembles."""
+    import re
+    with open(C.COQ + "/Gen/GenTreeCachePins.v") as f:
+        m = int(re.search(r"max_repetitions : Z := (\d+)", f.read()).group(1))
+    side = 1
+    while side * side < m:
+        side += 1
+    cases = [("flat", m - 1, None, ""), ("flat", m, None, ""), ("flat", m + 1, None, ""),
+             ("nested", side - 1, side, ""), ("nested", side, side, ""),          # 255 + 255*256 = 65535 ; 256 + 256*256 > 65536
+             ("flat", m, None, ".byte 7")]
+    if not quick:
+        cases += [("flat", m - 1, None, ".byte 7"), ("flat", m + 1, None, ".byte 7"), ("nested", side, side - 1, ""), ("nested", side, side, ".byte 7")]
+    pairs, metas = [], []
+    for shape, n1, n2, stmt in cases:
+        body = (stmt + "\n") if stmt else ""
+        if shape == "flat":
+            total, copies = n1, n1
+            rtext = ".repeat %d. {\n%s}\n" % (n1, body)
+        else:
+            total, copies = n1 + n1 * n2, n1 * n2
+            rtext = ".repeat %d. {\n.repeat %d. {\n%s}\n}\n" % (n1, n2, body)
+        tail = "tail: .word 177777, tail\n"
+        pairs.append(([("t.mac", rtext + tail)], [("t.mac", body * copies + tail)], None))
+        metas.append((shape, n1, n2, stmt, total))
+    jobs = []
+    for fa, fb, _ in pairs:
+        jobs += [((fa,), {"watchdog": 120}), ((fb,), {"watchdog": 120})]
+    outs = impl.pmap("assemble", jobs)
+    for i, (shape, n1, n2, stmt, total) in enumerate(metas):
+        a, b = outs[2 * i], outs[2 * i + 1]
+        rep.add_eval(2)
+        where = "within" if total <= m else "beyond"
+        rep.count("budget:%s:%s:%s" % (shape, where, a["outcome"]))
+        rep.nontrivial(("budget", shape, n1, n2, stmt))
+        inp = {"files": [["t.mac", pairs[i][0][0][1][:200]]], "transformation": "unroll", "total_repetitions": total, "budget": m,
+               "written_out": "%d copies of %r" % ((n1 if shape == "flat" else n1 * n2), stmt)}
+        if total <= m:
+            if view(a) != view(b):
+                rep.violate("repeat-unroll-at-budget:%s:%d" % (shape, total),
+                            "'.repeat' within the repetition budget does not assemble to what the body written out assembles to",
+                            dict(inp, files=[list(x) for x in pairs[i][0]], files_transformed=[["t.mac", "(%s)" % inp["written_out"]]]),
+                            impl=brief(a), impl_transformed=brief(b))
+        else:
+            if not (a["outcome"] == "failed" and "value-out-of-bounds" in brief(a)["errors"]) or b["outcome"] != "ok":
+                rep.disagree("beyond the repetition budget the model refuses the repeat (value-out-of-bounds) and assembles the written-out text",
+                             inp, impl=[brief(a), {k: v for k, v in brief(b).items() if k != "code"}])
+    rep.exhaustive_parts.append("repetition budget: totals %d / %d / %d flat and nested, empty and 1-byte bodies" % (m - 1, m, m + 1))
 
 
 # ------------------------------------------------------------------------------------------------
@@ -950,8 +1032,9 @@ def explore(rep, br, tier, seed):
         rep.exhaustive_parts.append("every repeat count n = 0..40 (literal) with a generated body, base set first / last / defaulted at random")
     except RuntimeError as ex:
         err = ex
+    budget_family(rep, quick)
     try:
-        structure_family(rep, rng, 210 if quick else 4200, with_model=True)
+        structure_family(rep, rng, 240 if quick else 4800, with_model=True)
     except RuntimeError as ex:
         err = err or ex
     paths_family(rep, rng, 80 if quick else 800)
